@@ -11,7 +11,7 @@ Families
   ww_width_fn   functional.ww_width on a (gamma, spot, cost, a) grid, scalar and tensor parameters.
   ww_struct     WhalleyWilmott on the other option classes: output = previous hedge clamped to
                 delta +- (3 c Gamma^2 S/(2a))^(1/3) with delta, Gamma taken from the module's own pricer.
-  svi           svi_variance / SVIVariance over a parameter alphabet (sigma not in {0, 1}).
+  svi           svi_variance / SVIVariance over a parameter alphabet (sigma positive and not 1, zero, negative).
   bilerp        bilerp over a dyadic value alphabet^4 x weights^2 (incl. extrapolation 1.5), exact.
   box_muller    box_muller over a uniform grid incl. 0 and values below epsilon.
   realized      realized_variance / realized_volatility on all paths of length 2..T.
@@ -475,7 +475,8 @@ def svi(ctx, block):
         tol = 8 * torch.finfo(odt).eps * mag
         if o != o or abs(mp.mpf(o) - e) > tol:
             wing = "k=m" if c[0] == c[4] else ("k<m" if c[0] < c[4] else "k>m")
-            ctx.violation(site, f"{form}:{wing}:{'rho=0' if c[3] == 0 else 'rho!=0'}",
+            sg = "sigma>0" if c[5] > 0 else ("sigma=0" if c[5] == 0 else "sigma<0")
+            ctx.violation(site, f"{form}:{wing}:{'rho=0' if c[3] == 0 else 'rho!=0'}:{sg}",
                           f"svi variance at k={c[0]}, a={c[1]}, b={c[2]}, rho={c[3]}, m={c[4]}, sigma={c[5]}: {o!r}",
                           observed=o, expected=float(e),
                           block={"form": form, "dtype": block["dtype"], "cases": [list(c)]})
@@ -723,7 +724,9 @@ def run(ctx):
                                   "t": [0.1, 0.5], "v": [0.2, 0.5], "prev": [-0.5, 0.0, 0.5, 1.0, 2.5]})
     # ---------------- SVI
     svi_alpha = {"k": [-0.5, -0.125, 0.0, 0.0625, 0.25, 1.0], "a": [0.0, 0.03125], "b": [0.125, 0.5],
-                 "rho": [-0.5, 0.0, 0.25], "m": [-0.25, 0.0, 0.125], "sigma": [0.125, 0.5, 2.0]}
+                 "rho": [-0.5, 0.0, 0.25], "m": [-0.25, 0.0, 0.125], "sigma": [0.125, 0.5, 2.0, 0.0, -0.5]}
+    # sigma enters the documented formula only through sigma^2: sigma = 0 (w = a + b (rho d + |d|)) and a negative
+    # sigma are as defined as any other real value; in the tensor forms they are entries of a tensor sigma
     svi_alpha["sigma"] = sorted(set(svi_alpha["sigma"] + [ctx.extra_symbol("svi_sigma", [0.25, 0.75, 1.5, 3.0])]))
     for name, vals in svi_alpha.items():
         ctx.alphabet("svi " + name, vals)
